@@ -228,7 +228,7 @@ func c06Run(rc *RunCtx, params any) {
 			done := false
 			var uerr error
 			s.Go("c-update", func() {
-				ctx, cancel := context.WithTimeout(context.Background(), time.Minute)
+				ctx, cancel := context.WithTimeout(context.Background(), s.Uniq(time.Minute))
 				defer cancel()
 				uerr = pair.Client.UpdateKeys(ctx, dtls.KeyUpdateOptions{})
 				done = true
